@@ -166,6 +166,16 @@ def assumptions_of(prop, log):
     return rc == 0, closed, sorted(set(axioms)), out
 
 
+def coqchk(prop, log, timeout=2400):
+    """thorough tier: re-check the compiled property file and everything it depends on with the independent checker."""
+    mod = "SG." + prop["properties_file"][len("theories/"):-2].replace("/", ".")
+    with Lock("coq"):
+        rc, out, dt = sh(["coqchk", "-silent", "-o", "-Q", "theories", "SG", mod], cwd=COQ, timeout=timeout)
+    log.append("coqchk %s: rc=%d %.0fs" % (mod, rc, dt))
+    summary = out[out.find("CONTEXT SUMMARY"):][:1500] if "CONTEXT SUMMARY" in out else out[-800:]
+    return rc == 0, summary
+
+
 def audit_sources(prop=None):
     bad = []
     files = glob.glob(os.path.join(COQ, "theories", "**", "*.v"), recursive=True)
@@ -358,6 +368,12 @@ def run_check(prop, tier, seed):
         if forbidden:
             broken_obligation = (broken_obligation or "") + " forbidden constructs: " + "; ".join(forbidden[:5])
             discharged = 0
+        chk_summary = None
+        if ok_build and tier == "thorough" and not os.environ.get("VERIF_SKIP_COQCHK"):
+            ok_chk, chk_summary = coqchk(prop, log)
+            if not ok_chk:
+                broken_obligation = (broken_obligation or "") + " coqchk failed: " + chk_summary[-300:]
+                discharged = 0
 
         # 3. harness
         rc, hout, rep, build_failed = run_harness(prop, tier, seed, outdir, log)
@@ -425,6 +441,7 @@ def run_check(prop, tier, seed):
             "theorems": obligations,
             "axioms_reported": axioms if axioms else ["<none: every property theorem is Closed under the global context>"],
             "translator": gen,
+            "coqchk": chk_summary,
             "evaluations": (rep or {}).get("evaluations", 0),
             "distinct_nontrivial": (rep or {}).get("distinct_nontrivial", 0),
             "distinct": (rep or {}).get("distinct", 0),
